@@ -33,7 +33,10 @@ import (
 var QueryDateTimeParser = optional.Name
 
 // QueryDateTimeFormat controls the format when Marshaling to JSON.
-var QueryDateTimeFormat = time.RFC3339
+// QueryDateTimeFormat is the layout date range queries are serialized with;
+// the nanosecond variant writes whole seconds exactly like RFC3339 and does
+// not drop the fraction of other times
+var QueryDateTimeFormat = time.RFC3339Nano
 
 var cache = registry.NewCache()
 
@@ -184,7 +187,7 @@ func (q *DateRangeQuery) Validate() error {
 }
 
 func isDatetimeCompatible(t BleveQueryTime) bool {
-	if QueryDateTimeFormat == time.RFC3339 &&
+	if (QueryDateTimeFormat == time.RFC3339 || QueryDateTimeFormat == time.RFC3339Nano) &&
 		(t.Before(MinRFC3339CompatibleTime) || t.After(MaxRFC3339CompatibleTime)) {
 		return false
 	}
